@@ -1,6 +1,7 @@
-import RulioProofs.CronTimeline
+import RulioProofs.CronProps
 
-/-! Helper lemmas for C16: when the timer of the in-memory cron stays armed for the head of the timeline. -/
+/-! Helper lemmas for C16: the timer of the in-memory cron stays armed for (at the latest) the head of the timeline, in every
+history (`ArmedLe`), and exactly for the head along histories without removals (`Armed`); liveness under the timer contract. -/
 
 namespace CronM
 open C16Gen List
@@ -27,20 +28,17 @@ theorem schedule_armed (s : Cron) (j : Job) (b : Bool) (h : atLimit s b (remJob 
   unfold schedule; dsimp only; simp only [hr, if_true, h, hi]; simp
 
 theorem Armed_tick {s : Cron} (h : Armed s) : Armed (tick s) := by
-  obtain ⟨e1, _, _, e4, _, e6, e7, _⟩ := tickArm_fields s
   rcases tick_cases s with ⟨e, _⟩ | ⟨e, hp, hcase⟩ | ⟨j, rest, hp, htl, hr, e⟩
   · rw [e]; exact h
   · rw [e]
-    intro hs hpz hne
-    rw [e6] at hs; rw [e1] at hne ⊢
-    have ha := h hs hp hne
-    rcases hcase with hnil | ⟨j, rest, htl, hnr⟩
-    · exact absurd hnil hne
-    · -- armed for j.next, which has not come: the delivery was a stale one and the timer stays armed
-      have hj : s.armed = some j.next := by rw [ha, htl]; rfl
-      have hgt : ¬ j.next ≤ s.clock := by
-        intro hle; rw [le_readyTest hle] at hnr; cases hnr
-      unfold tickArm; rw [hj]; simp only [hgt, if_false]; exact ha
+    intro _ _ hne
+    obtain ⟨i1, _⟩ := tickIdle_fields s
+    rw [i1] at hne ⊢
+    -- a delivery that pops nothing re-arms the timer for the head
+    unfold tickIdle
+    cases htl : s.tl with
+    | nil => exact absurd htl hne
+    | cons j rest => rfl
   · rw [e]; intro _ _ _; rfl
 
 theorem Armed_step {s : Cron} (h : Armed s) (op : Op) (hok : okTimer s op) : Armed (step s op) := by
@@ -58,8 +56,10 @@ theorem Armed_step {s : Cron} (h : Armed s) (op : Op) (hok : okTimer s op) : Arm
     rcases done_cases s k with ⟨e, _⟩ | ⟨j, _, _, ⟨_, e⟩ | ⟨_, e⟩⟩
     · rw [e]; exact h
     · rw [e]; exact h
-    · rw [e]; intro _ _ _
-      exact schedule_armed _ _ _ (by simp [atLimit])
+    · rw [e]
+      rcases reschedule_cases { s with inflight := s.inflight.eraseP (fun j => j.serial == k) } j with ⟨e2, _⟩ | ⟨_, e2⟩
+      · rw [e2]; exact h
+      · rw [e2]; intro _ _ _; rfl
   | suspend => intro hs; cases hs
   | resume =>
     simp only [step]
@@ -80,5 +80,146 @@ theorem Armed_run {s : Cron} (h : Armed s) (ops : List Op) (hc : Calm s ops) : A
 
 theorem Armed_init (limit : Nat) : Armed (init limit) := by
   intro _ _ hne; exact absurd rfl hne
+
+/-! ## every history: armed at or before the head's due time -/
+
+/-- whenever the loop is neither suspended nor paused and something is pending, the timer is armed, for a time no later than
+the head's due time (an earlier target only costs one delivery that finds the head not ready and re-arms for it exactly) -/
+def ArmedLe (s : Cron) : Prop :=
+  s.suspended = false → s.paused = false → ∀ j rest, s.tl = j :: rest → ∃ t, s.armed = some t ∧ t ≤ j.next
+
+/-- on a sorted timeline, removing entries can only move the head to a later time -/
+theorem head_le_of_sublist {tl tl' : List Job} (hs : tl.Pairwise (fun a b => a.next ≤ b.next)) (hsub : tl'.Sublist tl)
+    {j j' : Job} {rest rest' : List Job} (h : tl = j :: rest) (h' : tl' = j' :: rest') : j.next ≤ j'.next := by
+  have hm : j' ∈ tl := hsub.subset (by rw [h']; simp)
+  rw [h] at hm hs
+  rcases mem_cons.1 hm with e | hm
+  · rw [e]; exact Nat.le_refl _
+  · exact (pairwise_cons.1 hs).1 j' hm
+
+/-- a shrunken timeline keeps `ArmedLe` as long as timer and flags are untouched -/
+theorem ArmedLe_shrink {s s' : Cron} (hw : WF s) (h : ArmedLe s) (hsub : s'.tl.Sublist s.tl)
+    (ha : s'.armed = s.armed) (hsus : s'.suspended = s.suspended) (hpa : s'.paused = s.paused) : ArmedLe s' := by
+  intro hs hp j' rest' htl'
+  rw [hsus] at hs; rw [hpa] at hp
+  cases htl : s.tl with
+  | nil => rw [htl] at hsub; rw [htl'] at hsub; cases hsub
+  | cons j rest =>
+    obtain ⟨t, e, hle⟩ := h hs hp j rest htl
+    exact ⟨t, ha.trans e, Nat.le_trans hle (head_le_of_sublist hw.sorted hsub htl htl')⟩
+
+/-- a state whose timer has just been set by `resetTimer` -/
+theorem ArmedLe_of_rearm {s : Cron} (h : s.armed = rearm s.tl) : ArmedLe s := by
+  intro _ _ j rest htl
+  exact ⟨j.next, by rw [h, htl]; rfl, Nat.le_refl _⟩
+
+theorem schedule_flags (s : Cron) (j : Job) (b : Bool) :
+    (schedule s j b).1.suspended = s.suspended ∧ (schedule s j b).1.paused = s.paused := by
+  obtain ⟨_, _, _, _, _, e6, e7⟩ := schedule_fst_fields s j b
+  exact ⟨e6, e7⟩
+
+theorem ArmedLe_schedule {s : Cron} (hw : WF s) (h : ArmedLe s) (j : Job) (b : Bool) : ArmedLe (schedule s j b).1 := by
+  by_cases hl : atLimit s b (remJob j.id s.tl) = true
+  · -- rejected for capacity: the old entry is gone, the timer is untouched
+    have hr : scheduleRemsFirst = true := rfl
+    have e : (schedule s j b).1 = { s with tl := remJob j.id s.tl, running := cancelRunning j.id s.running } := by
+      unfold schedule; dsimp only; simp only [hr, if_true, hl]
+    rw [e]
+    exact ArmedLe_shrink hw h (remJob_sublist _ _) rfl rfl rfl
+  · exact ArmedLe_of_rearm (schedule_armed s j b (by simpa using hl))
+
+theorem ArmedLe_tick {s : Cron} (h : ArmedLe s) : ArmedLe (tick s) := by
+  rcases tick_cases s with ⟨e, _⟩ | ⟨e, _, _⟩ | ⟨j, rest, _, _, _, e⟩
+  · rw [e]; exact h
+  · rw [e]
+    obtain ⟨i1, _⟩ := tickIdle_fields s
+    intro _ _ j rest htl
+    rw [i1] at htl
+    refine ⟨j.next, ?_, Nat.le_refl _⟩
+    unfold tickIdle; rw [htl]; rfl
+  · rw [e]; exact ArmedLe_of_rearm rfl
+
+theorem ArmedLe_step {s : Cron} (hw : WF s) (h : ArmedLe s) (op : Op) : ArmedLe (step s op) := by
+  have hres : resumeRearms = true := rfl
+  cases op with
+  | advance d => exact h
+  | add id due p =>
+    simp only [step]
+    have hw' : WF { s with serial := s.serial + 1 } :=
+      hw.mono (Sublist.refl _) (Sublist.refl _) (Sublist.refl _) hw.runSub (Nat.le_refl _) (Nat.le_succ _)
+    exact ArmedLe_schedule hw' h _ _
+  | rem id => exact ArmedLe_shrink hw h (remJob_sublist _ _) rfl rfl rfl
+  | tick => exact ArmedLe_tick h
+  | done k =>
+    simp only [step]
+    rcases done_cases s k with ⟨e, _⟩ | ⟨j, _, _, ⟨_, e⟩ | ⟨_, e⟩⟩
+    · rw [e]; exact h
+    · rw [e]; exact h
+    · rw [e]
+      rcases reschedule_cases { s with inflight := s.inflight.eraseP (fun j => j.serial == k) } j with ⟨e2, _⟩ | ⟨_, e2⟩
+      · rw [e2]; exact h
+      · rw [e2]; exact ArmedLe_of_rearm rfl
+  | suspend => intro hs; cases hs
+  | resume =>
+    simp only [step]
+    split
+    · exact ArmedLe_of_rearm (by simp [hres])
+    · exact h
+  | pauseBegin => intro _ hp; cases hp
+  | pauseEnd =>
+    simp only [step]
+    split
+    · exact ArmedLe_of_rearm rfl
+    · exact h
+
+theorem ArmedLe_init (limit : Nat) : ArmedLe (init limit) := by
+  intro _ _ j rest htl; cases htl
+
+theorem ArmedLe_run {s : Cron} (hw : WF s) (h : ArmedLe s) (ops : List Op) : ArmedLe (run s ops) := by
+  induction ops generalizing s with
+  | nil => exact h
+  | cons op ops ih => exact ih (WF_step hw op) (ArmedLe_step hw h op)
+
+/-! ## liveness under the timer contract -/
+
+theorem tick_flags (s : Cron) : (tick s).suspended = s.suspended := by
+  obtain ⟨_, _, _, _, _, e6, _⟩ := tickArm_fields s
+  obtain ⟨_, _, _, _, _, i6, _⟩ := tickIdle_fields s
+  rcases tick_cases s with ⟨e, _⟩ | ⟨e, _, _⟩ | ⟨j, rest, _, _, _, e⟩
+  · rw [e]
+  · rw [e, i6]
+  · rw [e]; exact e6
+
+/-- Under the timer contract a pending job whose due time has come is fired by the next `pre.length + 1` deliveries, every one
+of which is due: the timer is armed at or before the head's time (`ArmedLe`), the head is ready because the timeline is sorted,
+and every pop re-arms for the next head. -/
+theorem deliverN_fires {s : Cron} (hw : WF s) (ha : ArmedLe s) (hs : s.suspended = false) (hp : s.paused = false)
+    (pre : List Job) (j : Job) (post : List Job) (htl : s.tl = pre ++ j :: post) (hdue : j.next ≤ s.clock) :
+    ∃ s', deliverN (pre.length + 1) s = some s' ∧ fireOf j s.clock ∈ s'.log ∧ s'.tl = post ∧ s'.clock = s.clock := by
+  induction pre generalizing s with
+  | nil =>
+    have htl' : s.tl = j :: post := by simpa using htl
+    obtain ⟨t, et, hle⟩ := ha hs hp j post htl'
+    obtain ⟨a, b, _, d, _⟩ := tick_fires_head' hp htl' hdue
+    have hd : deliverable s = true := by
+      simp only [deliverable, hp, et]
+      simpa using Nat.le_trans hle hdue
+    refine ⟨tick s, ?_, by rw [b]; simp, a, d⟩
+    simp [deliverN, deliver, hd]
+  | cons x pre ih =>
+    have htl' : s.tl = x :: (pre ++ j :: post) := by simpa using htl
+    have hx : x.next ≤ s.clock := by
+      have hso := hw.sorted
+      rw [htl'] at hso
+      exact Nat.le_trans ((pairwise_cons.1 hso).1 j (by simp)) hdue
+    obtain ⟨t, et, hle⟩ := ha hs hp x _ htl'
+    obtain ⟨a, b, _, d, e, _⟩ := tick_fires_head' hp htl' hx
+    have hd : deliverable s = true := by
+      simp only [deliverable, hp, et]
+      simpa using Nat.le_trans hle hx
+    obtain ⟨s', h1, h2, h3, h4⟩ := ih (s := tick s) (WF_tick hw) (ArmedLe_tick ha) ((tick_flags s).trans hs) e a (by rw [d]; exact hdue)
+    refine ⟨s', ?_, by rw [d] at h2; exact h2, h3, h4.trans d⟩
+    simp only [length_cons, deliverN, deliver, hd, if_true, Option.bind_some]
+    exact h1
 
 end CronM
